@@ -26,3 +26,8 @@ package jsonpath
 //@   trusted
 //@   pure
 //@   ensures def: result <==> pathExists(traveler, path)
+
+// GetNamespace only splits its argument.
+//@ func GetNamespace
+//@   property C14 C02
+//@   pure
